@@ -98,6 +98,12 @@ def run(tier):
     binary = common.opensmt_bin("hooks")
     vals = [Fraction(n, d) for n in (0, 1, -1, 7, -7, 10**9, -(2**31), 2**31, 2**32 + 1, -(2**63) - 5, 10**30 + 1)
             for d in (1, 2, 3, 8, 10, 2**31 - 1, 10**12)]
+    # values of any magnitude: numerators and denominators of up to 130 digits (printing must not depend on the length)
+    for nd in (1, 9, 10, 19, 20, 40, 63, 64, 65, 80, 100, 130):
+        for dd in (1, 10, 20, 41, 64, 90, 130):
+            num = rng.randrange(10 ** (nd - 1), 10 ** nd)
+            den = rng.randrange(10 ** (dd - 1), 10 ** dd) | 1
+            vals.append(Fraction(rng.choice([1, -1]) * num, den))
     lines = ["(set-option :produce-models true)", "(set-logic QF_LRA)"]
     for i, v in enumerate(vals):
         lines.append(f"(declare-fun r{i} () Real)")
